@@ -1,5 +1,6 @@
 import PlzVerif.Lemmas.Build
 import PlzVerif.Lemmas.BuildNoop
+import PlzVerif.Lemmas.BuildOnlyIf
 import PlzVerif.Model.BuildFacts
 /-!
 C03  No-op and cut-off: actions re-run only when their inputs changed.
@@ -107,6 +108,48 @@ theorem C03_cutoff (r : Repo K A F N C) (out : Out K C S N H) (d t : Target K A 
       · rw [buildOne_other generatedFacts (mvCoded generatedFacts pathSer) exec ruleSer pathSer r out d k hk]
     rw [this]; exact hti
   · rw [buildOne_other generatedFacts (mvCoded generatedFacts pathSer) exec ruleSer pathSer r out d t.key hne]; exact hto
+
+/-- **Only-if-changed for a whole build** (two builds and an edit: `out` is whatever earlier builds left in plz-out,
+    `r` the repository after the edit).  Every key in the run list belongs to a selected target whose output was
+    missing, or whose recorded rule pre-image differs from the current one, or whose recorded (name, pre-image) list
+    of inputs differs from its current inputs — sources as they are now, dependency outputs as they are after this
+    build.  For every plz-out, every well-formed target list, with no injectivity hypothesis. -/
+theorem C03_build_only_if_changed (r : Repo K A F N C) (sel : K → Bool) (out : Out K C S N H)
+    (hwf : WFList sel [] r.targets) :
+    ∀ k ∈ (build generatedFacts (mvCoded generatedFacts pathSer) exec ruleSer pathSer r sel out).2,
+      ∃ t ∈ r.targets, t.key = k ∧ sel t.key = true ∧
+        RanReason ruleSer pathSer r out (build generatedFacts (mvCoded generatedFacts pathSer) exec ruleSer pathSer r sel out).1 t :=
+  buildList_ran_reason generatedFacts (mvCoded generatedFacts pathSer) exec ruleSer pathSer facts_cmp r sel r.targets [] out hwf
+
+/-- Consequence in the other direction: a selected target whose stamp in the old plz-out records exactly its
+    current rule pre-image and the (name, pre-image) list of its inputs as they are after the build cannot be the
+    reason for an entry of the run list (stated on `RanReason`, which is what `C03_build_only_if_changed` delivers). -/
+theorem C03_unchanged_no_reason (r : Repo K A F N C) (before after : Out K C S N H) (t : Target K A F)
+    (c : C) (st : Stamp S N H) (ins : List (N × C))
+    (ho : before t.key = some (c, st)) (hr : st.rule = ruleSer t.attrs)
+    (hi : inputs r after t = some ins) (hs : st.ins = ins.map (fun p => (p.1, pathSer p.2))) :
+    ¬ RanReason ruleSer pathSer r before after t := by
+  rintro (h | ⟨c', st', ho', h | h⟩)
+  · rw [ho] at h; exact absurd h (by simp)
+  · rw [ho] at ho'; obtain ⟨_, rfl⟩ := Prod.mk.inj (Option.some.inj ho'); exact h hr
+  · rw [ho] at ho'; obtain ⟨_, rfl⟩ := Prod.mk.inj (Option.some.inj ho'); exact h ins hi hs
+
+namespace EditExample
+/-- `0` copies a source file, `1` adds 100 to the output of `0`, `2` is an unrelated constant. -/
+def ts : List (Target Nat Nat Nat) := [⟨0, 0, [0], []⟩, ⟨1, 100, [], [0]⟩, ⟨2, 7, [], []⟩]
+def repo (v : Nat) : Repo Nat Nat Nat Nat Nat := { files := fun _ => v, fname := id, outName := id, targets := ts }
+def execE (a : Nat) (ins : List (Nat × Nat)) : Nat := a + (ins.map (·.2)).sum
+def all : Nat → Bool := fun _ => true
+def out1 : Out Nat Nat Nat Nat Nat :=
+  (build generatedFacts (mvCoded generatedFacts id) execE id id (repo 5) all (fun _ => none)).1
+end EditExample
+
+open EditExample in
+/-- non-vacuity: build, edit the source file, build again — exactly the target that reads the file and its dependent
+    run (the unrelated target does not), and the list is well-formed. -/
+example : (build generatedFacts (mvCoded generatedFacts id) execE id id (repo 6) all out1).2 = [0, 1] ∧
+    WFList all [] (repo 6).targets := by
+  refine ⟨by decide, by simp [WFList, repo, ts, all]⟩
 
 -- non-vacuity: a fresh target exists (build one target from nothing, it is then fresh)
 example : Fresh (S := Nat) (H := Nat) id id
